@@ -98,6 +98,26 @@ fn test(c: &Case, st: &mut Stats) -> TestResult {
             ),
         ));
     }
+    // (1b) the same, based well behind the real clock
+    let past = agentsim::process_origin_past();
+    if past != origin {
+        let past_origin = past.checked_sub(Duration::from_millis(c.shift_ms % 5_000)).unwrap_or(past);
+        let back = settled!(guard(|| agentsim::record_run(h, past_origin, 0, None)).map_err(|p| Fail::new("c20-panic", p))?);
+        st.class("replayed from an origin in the past");
+        if let Some((i, a, b)) = first_diff(&base, &back) {
+            return Err(Fail::new(
+                "c20-time-shift",
+                format!(
+                    "replaying the history from an origin {:?} behind the usual one changes the replies at step {} ({:?}): '{}' vs '{}' (instants are printed relative to the respective origin)",
+                    origin.duration_since(past_origin),
+                    i,
+                    h.ops.get(i),
+                    a,
+                    b
+                ),
+            ));
+        }
+    }
     // (2) unchanged replay in another instance, alongside unrelated agents, on another thread
     let again = settled!(guard(|| agentsim::record_run(h, origin, 0, None)).map_err(|p| Fail::new("c20-panic", p))?);
     if let Some((i, a, b)) = first_diff(&base, &again) {
